@@ -228,6 +228,29 @@ def conditions_sharing_a_sampler_keep_their_own_data_functions(S):
             S.forall(f"{nm}-condition-evaluates-its-OWN-data-function-at-its-points", f, lambda q, f=f, xk=xk, tk=tk, fn_=fn_: zreal(f.val.at(q)) == fn_.value_terms([zreal(tk.val.at([q[0], ()])), zreal(xk.val.at([q[0], (0,)])), zreal(xk.val.at([q[0], (1,)]))])[0])
 
 
+@scenario("C14", [C + "Condition._setup_data_functions", C + "SingleModuleCondition.forward", SS + ".sample_points"], configs=["interval-1", "interval-2"], bounded=BOUND + "; static sampler with a finite resample interval, history of three forward calls", name="static_sampler_with_a_finite_interval_data_follow_the_current_points")
+@scenario("C04", [C + "Condition._setup_data_functions", C + "SingleModuleCondition.forward", SS + ".sample_points"], configs=["interval-1", "interval-2"], bounded=BOUND + "; static sampler with a finite resample interval, history of three forward calls")
+def static_sampler_with_a_finite_interval_data_follow_the_current_points(S):
+    """a condition on a StaticSampler that re-samples every I calls (I = 1, 2): in EVERY forward call -- before and
+    after a re-sampling -- the data function values handed to the residual are the data function at the coordinates
+    handed to the residual in the same call (whatever was pre-evaluated at construction time)"""
+    w = World(S)
+    interval = 1 if S.cfg == "interval-1" else 2
+    sobj = S.method(w.sampler.obj, "make_static", interval)
+    cond = S.new(C + "SingleModuleCondition", w.model.obj, sobj, w.res, w.E, reduce_fn=w.Rd, data_functions={"f": w.fdata}, parameter=w.D)
+    for k in range(3):
+        S.method(cond, "forward")
+    S.ensure("residual-called-once-per-forward", len(w.res.calls) == 3)
+    S.ensure("the-sampler-was-asked-again-after-the-interval", len(w.sampler.calls) >= 2)
+    for k, rc in enumerate(w.res.calls[:3]):
+        f, xk, tk = rc["kwargs"].get("f"), rc["kwargs"].get("x"), rc["kwargs"].get("t")
+        ok = isinstance(f, Tensor) and isinstance(xk, Tensor) and isinstance(tk, Tensor) and f.val.rank == 2
+        S.ensure(f"call-{k}-gets-data-and-coordinates", ok)
+        if ok:
+            S.ensure(f"call-{k}-one-data-row-per-point", f.val.shape[0].size_term() == xk.val.shape[0].size_term())
+            S.forall(f"call-{k}-data-function-evaluated-at-the-points-of-this-call", f, lambda q, f=f, xk=xk, tk=tk: zreal(f.val.at(q)) == w.fdata.value_terms([zreal(tk.val.at([q[0], ()])), zreal(xk.val.at([q[0], (0,)])), zreal(xk.val.at([q[0], (1,)]))])[0])
+
+
 def I_entails(S, f):
     return S.ctx.entails(f)
 
